@@ -224,13 +224,20 @@ def run(rep):
     rep.guarded("R-C11-guard", rule_validate)
     rep.guarded("R-C11-scratch", lambda r: fftunit.rule_scratch(r, "R-C11-scratch"))
     rep.guarded("R-C11-scratch", rule_points)
+    # the allocating / padding wrappers must treat channels independently too (per-channel lengths, per-channel mask bit): shared with C16
+    import C16
+    rep.guarded("R-C16-process", C16.rule_process)
+    rep.guarded("R-C16-partial", C16.rule_partial)
     rep.floor("R-C11-guard", 50)
     rep.floor("R-C11-index", 70)
     rep.floor("R-C11-count", 14)
     rep.floor("R-C11-scratch", 7 + 6)
+    rep.floor("R-C16-process", 12)
+    rep.floor("R-C16-partial", 5)
     rep.clause("R-C11-guard", "every access to wave_in / wave_out in the seven process_into_buffer bodies and in validate_buffers is under the mask bit of the same channel (or is the length of the outer slice)")
     rep.clause("R-C11-index", "inside a channel loop every per-channel container (buffer, overlaps, input/output_buffers, wave_in, wave_out) is indexed by that loop's channel variable only")
     rep.clause("R-C11-scratch", "state shared between channels holds nothing across channels: FFT work buffers are overwritten before use per unit; the per-frame `points` array is rewritten per channel")
+    rep.clause("R-C16-process / R-C16-partial", "the wrappers size, pad and copy per channel (a channel's padded input depends only on that channel's own input), shared with C16")
     rep.clause("R-C11-count", "frame counters, positions and returned counts are not written inside channel loops and do not mention the mask")
     rep.not_decided += ["numerical equality with n single-channel runs (follows from the clauses above plus C18's 'no hidden state'; stated as an argument)"]
     rep.trusted += ["syn parser", "realfft overwrites its whole output"]
